@@ -72,6 +72,15 @@ Theorem conv_recipe_correct : forall tx td x,
 Proof. exact conv_correct. Qed.
 Print Assumptions conv_recipe_correct.
 
+(* Float comparisons: the predicate chosen for each operator gives Go's result
+   in all four ordering cases (less, equal, greater, unordered = a NaN operand):
+   every comparison with a NaN is false except != *)
+Theorem fcmp_recipe_correct : forall op o,
+  match op with GEq | GNe | GLt | GLe | GGt | GGe => True | _ => False end ->
+  eval_fpred (fpred_of op) o = go_fcmp op o.
+Proof. exact fcmp_correct. Qed.
+Print Assumptions fcmp_recipe_correct.
+
 (* the tie: IR that the obligation [func_eqb ir recipe = true] accepts executes
    exactly like the recipe, so the theorems above transfer to the emitted IR *)
 Theorem generated_ir_executes_as_recipe : forall f g args,
